@@ -57,3 +57,26 @@ package writecache
 //@   property C17
 //@   callee (*writecache.counters).Delete
 //@   requires [removed_before_unaccounted] fsTreeRemoved()
+
+// ---- C14 (write-cache layer): the cache's own store is written and the main storage is
+// fed only on a path where the cache's mode was found writable. put is a helper without its own check: it demands it from every caller; the calls
+// of delete/flushSingle/flushBatch in Put, Delete and the flush workers are checked in place.
+// (Flush and SetMode are the two deliberate exceptions: Flush is guarded one level up, by the
+// shard, and SetMode flushes while it moves the cache to a degraded mode.)
+
+//@ ghost pred cacheWritable() bool
+
+//@ callrule c14_cache_mode_answer in *
+//@   property C14
+//@   callee (*writecache.cache).readOnly
+//@   pureeffect
+//@   defines !result ==> cacheWritable()
+
+//@ func (*cache).put
+//@   property C14
+//@   requires [only_in_writable_mode] cacheWritable()
+
+//@ callrule c14_cache_store_written_only_when_writable in (*cache).Put, (*cache).Delete, (*cache).flushWorker
+//@   property C14
+//@   callee (*writecache.cache).put, (*writecache.cache).delete, (*writecache.cache).flushSingle, (*writecache.cache).flushBatch
+//@   requires [only_in_writable_mode] cacheWritable()
